@@ -512,12 +512,15 @@ def opNarrow (W : Nat) (op : BOp) (s : Big) (number : Nat) : M Big :=
     let ws ← wr s.words 0 number
     pure ⟨ws, 0⟩
 
-/-- the chunk loop of the wide `doOperation` (lines 569-613): `number` is what is left after the
+/-- the chunk loop of the wide `doOperation` (as repaired: bounded by `chunks = sizeof(N)*8/TypeWidth()`
+and by `MaxIndex()`): `number` is what is left after the
 previous `>>= TypeWidth()`; returns the object and the final `index`. -/
-def wideLoop (W : Nat) (op : BOp) : Nat → Big → Nat → Nat → M (Big × Nat)
+def wideLoop (W : Nat) (op : BOp) (chunks : Nat) : Nat → Big → Nat → Nat → M (Big × Nat)
   | 0, _, _, _ => .error .fuel
   | fuel + 1, s, number, index =>
-    if number != 0 then do
+    -- while ((index < chunks) && (index <= MaxIndex()) && (number != 0)): the two bounds keep a negative
+    -- operand (arithmetic >>=, never zero) and an operand wider than the object inside the storage
+    if index < chunks ∧ index ≤ maxIndex s.words ∧ number ≠ 0 then do
       let chunk := number % 2 ^ W
       let s ← match op with
         | .add => add W s chunk index
@@ -533,7 +536,7 @@ def wideLoop (W : Nat) (op : BOp) : Nat → Big → Nat → Nat → M (Big × Na
         | .set => do
           let ws ← wr s.words index chunk
           pure (⟨ws, s.idx + 1⟩ : Big)
-      wideLoop W op fuel s (number >>> W) (index + 1)
+      wideLoop W op chunks fuel s (number >>> W) (index + 1)
     else pure (s, index)
 
 /-- `while (index <= last_index) { storage_[index] = 0; ++index; }` (repaired wide `And`) -/
@@ -563,11 +566,16 @@ def opWide (W K : Nat) (op : BOp) (s : Big) (number : Nat) : M Big := do
     | .set => do
       let ws ← wr s.words 0 low
       pure (⟨ws, 0⟩ : Big)
-  let (s, index) ← if K / W > 1 then wideLoop W op (K / W + 1) s (number >>> W) 1 else pure (s, 1)
+  let (s, index) ← if K / W > 1 then wideLoop W op (K / W) (K / W + 1) s (number >>> W) 1 else pure (s, 1)
   if op == .and then do
     let ws ← zeroUpTo last (last + 2) s.words index
     pure ⟨ws, s.idx⟩
   else pure s
+
+/-- What a (possibly negative) operand `x` of a signed `K`-bit type is to the object: `Number_T(number)`
+sign-extends to the word, the chunk loop walks the two's-complement pattern of the operand's own width —
+the unsigned value of `x` modulo `2^max(K, W)`. For `x ≥ 0` this is `x`. -/
+def signedOperand (W K : Nat) (x : Int) : Nat := (x % (2 : Int) ^ (max K W)).toNat
 
 /-- The overload the compiler picks: the non-template one when the operand type is Number_T. -/
 def opK (W K : Nat) (op : BOp) (s : Big) (number : Nat) : M Big :=
